@@ -1,18 +1,254 @@
 import GrmVerif.Model.Recover
-/-! # C07 — theorems being written -/
-namespace GrmVerif.C07
-open GrmVerif Rec
+/-!
+# C07 — error recovery always progresses and the error list matches the outcome
 
-/-- stripping trailing shifts leaves no trailing shift -/
-theorem stripShifts_no_trailing (rs : List Repair) : (stripShifts rs).getLast? ≠ some .shift := by
-  unfold stripShifts
-  rw [List.getLast?_reverse]
-  cases h : rs.reverse.dropWhile (· == Repair.shift) with
-  | nil => simp
-  | cons a as =>
-    have := List.head_dropWhile_not (fun x => x == Repair.shift) rs.reverse (by rw [h]; simp)
-    simp only [h, List.head_cons] at this
-    simp only [List.head?_cons, ne_eq, Option.some.injEq]
-    intro e; subst e; simp at this
+Model: `Rec.recRun` (the loop of `Parser::lr` with a recoverer, on state stacks, parametric in the
+recoverer). `RecovererOK` is what C05/C06 establish per reported error for the real recoverer
+(the first sequence applies and a plain parse then continues over `N` lexemes or to acceptance);
+the theorems derive the shape of the error list for EVERY input. The shape itself is also checked
+directly on every `(value, errors)` the real parser returns.
+-/
+namespace GrmVerif.C07
+open GrmVerif Rec LR
+
+/-- from `c` the plain parse shifts `k` further lexemes without an error, or accepts before that -/
+inductive Runs (G : Grammar) (A : Automaton) (w : List Nat) : Nat → Pos → Prop
+  | zero (c : Pos) : Runs G A w 0 c
+  | acc (c : Pos) (k : Nat) (s : List Nat) : feed G A (nextTok G w c.pos) FUEL c.stack = .accept s → Runs G A w k c
+  | shift (c : Pos) (k : Nat) (s : List Nat) : feed G A (nextTok G w c.pos) FUEL c.stack = .shifted s →
+      Runs G A w k ⟨s, c.pos + 1⟩ → Runs G A w (k + 1) c
+
+/-- what a well-behaved recoverer guarantees: it never moves backwards, and from where it leaves
+the parser a plain parse continues over `N` lexemes or to acceptance -/
+def RecovererOK (G : Grammar) (A : Automaton) (w : List Nat) (N : Nat)
+    (recover : Pos → Option (Pos × List (List Repair))) : Prop :=
+  ∀ c c' rs, recover c = some (c', rs) → rs ≠ [] → c.pos ≤ c'.pos ∧ Runs G A w N c'
+
+/-- consecutive errors are at least `N` lexemes apart -/
+def Spaced (N : Nat) : List Err → Prop
+  | [] => True
+  | [_] => True
+  | e1 :: e2 :: rest => e1.pos + N ≤ e2.pos ∧ Spaced N (e2 :: rest)
+
+/-- every error except possibly the last has a repair sequence -/
+def AllButLastRepaired : List Err → Prop
+  | [] => True
+  | [_] => True
+  | e1 :: e2 :: rest => e1.repairs ≠ [] ∧ AllButLastRepaired (e2 :: rest)
+
+theorem spaced_cons {N : Nat} {e : Err} {l : List Err} (hl : Spaced N l)
+    (hh : ∀ e2, l.head? = some e2 → e.pos + N ≤ e2.pos) : Spaced N (e :: l) := by
+  cases l with
+  | nil => trivial
+  | cons e2 rest => exact ⟨hh e2 rfl, hl⟩
+
+theorem allButLast_cons {e : Err} {l : List Err} (hl : AllButLastRepaired l) (he : l ≠ [] → e.repairs ≠ []) :
+    AllButLastRepaired (e :: l) := by
+  cases l with
+  | nil => trivial
+  | cons e2 rest => exact ⟨he (by simp), hl⟩
+
+/-- the run from `c` appends errors that are spaced, start no earlier than `c.pos + k` when the
+plain parse runs `k` lexemes from `c`, all but the last repaired, and all repaired when a value is
+produced -/
+theorem recRun_shape (G : Grammar) (A : Automaton) (w : List Nat) (N : Nat)
+    (recover : Pos → Option (Pos × List (List Repair))) (hok : RecovererOK G A w N recover) :
+    ∀ (fuel : Nat) (c : Pos) (errs : List Err) (k : Nat) (v : Bool) (errs' : List Err),
+      Runs G A w k c → recRun G A w recover fuel c errs = (v, errs') →
+      ∃ new, errs' = errs ++ new ∧ Spaced N new ∧ AllButLastRepaired new ∧
+        (∀ e, new.head? = some e → c.pos + k ≤ e.pos) ∧
+        (v = true → ∀ e ∈ new, e.repairs ≠ []) := by
+  intro fuel
+  induction fuel with
+  | zero =>
+    intro c errs k v errs' _ h
+    simp only [recRun, Prod.mk.injEq] at h
+    exact ⟨[], by simp [h.2], trivial, trivial, by simp, by intro hv; rw [← h.1] at hv; cases hv⟩
+  | succ f ih =>
+    intro c errs k v errs' hruns h
+    simp only [recRun] at h
+    cases hf : feed G A (nextTok G w c.pos) FUEL c.stack with
+    | shifted s =>
+      rw [hf] at h
+      simp only at h
+      have hr' : ∃ k', Runs G A w k' ⟨s, c.pos + 1⟩ ∧ k ≤ k' + 1 := by
+        cases hruns with
+        | zero _ => exact ⟨0, .zero _, by omega⟩
+        | acc _ _ s' ha => rw [hf] at ha; cases ha
+        | shift _ k0 s' hs hr => rw [hf] at hs; injection hs with hs; subst hs; exact ⟨k0, hr, by omega⟩
+      obtain ⟨k', hk', hle⟩ := hr'
+      obtain ⟨new, h1, h2, h3, h4, h5⟩ := ih ⟨s, c.pos + 1⟩ errs k' v errs' hk' h
+      exact ⟨new, h1, h2, h3, fun e he => by have := h4 e he; simp only at this; omega, h5⟩
+    | accept s =>
+      rw [hf] at h
+      simp only [Prod.mk.injEq] at h
+      exact ⟨[], by simp [h.2], trivial, trivial, by simp, by simp⟩
+    | crash =>
+      rw [hf] at h
+      simp only [Prod.mk.injEq] at h
+      exact ⟨[], by simp [h.2], trivial, trivial, by simp, by intro hv; rw [← h.1] at hv; cases hv⟩
+    | fuelOut =>
+      rw [hf] at h
+      simp only [Prod.mk.injEq] at h
+      exact ⟨[], by simp [h.2], trivial, trivial, by simp, by intro hv; rw [← h.1] at hv; cases hv⟩
+    | error s =>
+      rw [hf] at h
+      simp only at h
+      have hk0 : k = 0 := by
+        cases hruns with
+        | zero _ => rfl
+        | acc _ _ s' ha => rw [hf] at ha; cases ha
+        | shift _ k0 s' hs _ => rw [hf] at hs; cases hs
+      subst hk0
+      cases hrec : recover ⟨s, c.pos⟩ with
+      | none =>
+        rw [hrec] at h
+        simp only [Prod.mk.injEq] at h
+        refine ⟨[⟨c.pos, []⟩], by simp [h.2], trivial, trivial, ?_, ?_⟩
+        · intro e he; simp at he; subst he; simp
+        · intro hv; rw [← h.1] at hv; cases hv
+      | some r =>
+        obtain ⟨c', rs⟩ := r
+        rw [hrec] at h
+        simp only at h
+        by_cases hemp : rs.isEmpty = true
+        · rw [if_pos hemp] at h
+          simp only [Prod.mk.injEq] at h
+          refine ⟨[⟨c.pos, []⟩], by simp [h.2], trivial, trivial, ?_, ?_⟩
+          · intro e he; simp at he; subst he; simp
+          · intro hv; rw [← h.1] at hv; cases hv
+        · rw [if_neg hemp] at h
+          have hne : rs ≠ [] := by intro e; subst e; simp at hemp
+          obtain ⟨hpos, hrun⟩ := hok ⟨s, c.pos⟩ c' rs hrec hne
+          simp only at hpos
+          obtain ⟨new, h1, h2, h3, h4, h5⟩ := ih c' (errs ++ [⟨c.pos, rs⟩]) N v errs' hrun h
+          refine ⟨⟨c.pos, rs⟩ :: new, by simp [h1], ?_, ?_, ?_, ?_⟩
+          · exact spaced_cons h2 (fun e2 he => by have := h4 e2 he; simp only; omega)
+          · exact allButLast_cons h3 (fun _ => hne)
+          · intro e he; simp at he; subst he; simp
+          · intro hv e he
+            rcases List.mem_cons.mp he with rfl | he
+            · exact hne
+            · exact h5 hv e he
+
+/-- **Errors are reported in strictly increasing position, at least `N` lexemes apart; every error
+but the last carries a repair sequence; a value implies every error does.** For every input and
+every recoverer satisfying `RecovererOK`. -/
+theorem errors_shape (G : Grammar) (A : Automaton) (w : List Nat) (N : Nat)
+    (recover : Pos → Option (Pos × List (List Repair))) (hok : RecovererOK G A w N recover)
+    (fuel : Nat) (v : Bool) (errs : List Err)
+    (h : recRun G A w recover fuel ⟨[A.start], 0⟩ [] = (v, errs)) :
+    Spaced N errs ∧ AllButLastRepaired errs ∧ (v = true → ∀ e ∈ errs, e.repairs ≠ []) := by
+  obtain ⟨new, h1, h2, h3, _, h5⟩ := recRun_shape G A w N recover hok fuel _ [] 0 v errs (.zero _) h
+  simp only [List.nil_append] at h1
+  subst h1
+  exact ⟨h2, h3, h5⟩
+
+/-- a spaced list within the input has at most `|w| / N + 1` entries -/
+theorem spaced_length_bound (N : Nat) (hN : 0 < N) (len : Nat) :
+    ∀ (errs : List Err) (lo : Nat), Spaced N errs → (∀ e ∈ errs, lo ≤ e.pos ∧ e.pos ≤ len) →
+      errs.length * N ≤ (len - lo) + N
+  | [], _, _, _ => by simp
+  | [e], lo, _, hb => by simp
+  | e1 :: e2 :: rest, lo, hs, hb => by
+    have h1 := hb e1 (by simp)
+    have ih := spaced_length_bound N hN len (e2 :: rest) (e1.pos + N) hs.2 (by
+      intro e he
+      refine ⟨?_, (hb e (List.mem_cons_of_mem _ he)).2⟩
+      -- every later error is at or beyond e2, which is beyond e1 + N
+      have : ∀ (l : List Err) (x : Err), Spaced N (x :: l) → ∀ y ∈ x :: l, x.pos ≤ y.pos := by
+        intro l
+        induction l with
+        | nil => intro x _ y hy; simp at hy; subst hy; exact Nat.le_refl _
+        | cons z zs ihl =>
+          intro x hsp y hy
+          rcases List.mem_cons.mp hy with rfl | hy
+          · exact Nat.le_refl _
+          · have := ihl z hsp.2 y hy
+            have := hsp.1
+            omega
+      have := this rest e2 hs.2 e he
+      have := hs.1
+      omega)
+    have h2 := hb e2 (by simp)
+    have hs1 := hs.1
+    simp only [List.length_cons] at ih ⊢
+    have : (rest.length + 1 + 1) * N = (rest.length + 1) * N + N := by
+      rw [Nat.add_mul, Nat.one_mul]
+    rw [this]
+    omega
+
+/-- **The number of errors is bounded by the input length.** -/
+theorem errors_bounded (G : Grammar) (A : Automaton) (w : List Nat) (N : Nat) (hN : 0 < N)
+    (recover : Pos → Option (Pos × List (List Repair))) (hok : RecovererOK G A w N recover)
+    (fuel : Nat) (v : Bool) (errs : List Err)
+    (h : recRun G A w recover fuel ⟨[A.start], 0⟩ [] = (v, errs))
+    (hpos : ∀ e ∈ errs, e.pos ≤ w.length) : errs.length * N ≤ w.length + N := by
+  have hs := (errors_shape G A w N recover hok fuel v errs h).1
+  have := spaced_length_bound N hN w.length errs 0 hs (fun e he => ⟨Nat.zero_le _, hpos e he⟩)
+  simpa using this
+
+/-- **A value together with an empty error list means the input was accepted unchanged**: the run
+never consulted the recoverer, so it is the plain parse. -/
+theorem clean_accept (G : Grammar) (A : Automaton) (w : List Nat)
+    (recover recover' : Pos → Option (Pos × List (List Repair))) :
+    ∀ (fuel : Nat) (c : Pos) (errs : List Err) (v : Bool),
+      recRun G A w recover fuel c errs = (v, errs) → recRun G A w recover' fuel c errs = (v, errs) := by
+  intro fuel
+  induction fuel with
+  | zero => intro c errs v h; simpa [recRun] using h
+  | succ f ih =>
+    intro c errs v h
+    simp only [recRun] at h ⊢
+    cases hf : feed G A (nextTok G w c.pos) FUEL c.stack with
+    | shifted s => rw [hf] at h; simp only at h ⊢; exact ih _ _ _ h
+    | accept s => rw [hf] at h; simpa using h
+    | crash => rw [hf] at h; simpa using h
+    | fuelOut => rw [hf] at h; simpa using h
+    | error s =>
+      -- an error would have lengthened the error list
+      exfalso
+      rw [hf] at h
+      simp only at h
+      have hlen : ∀ (fuel : Nat) (c : Pos) (es : List Err) (v : Bool) (es' : List Err),
+          recRun G A w recover fuel c es = (v, es') → es.length ≤ es'.length := by
+        intro fuel
+        induction fuel with
+        | zero => intro c es v es' h; simp only [recRun, Prod.mk.injEq] at h; rw [← h.2]; exact Nat.le_refl _
+        | succ g ihg =>
+          intro c es v es' h
+          simp only [recRun] at h
+          cases hf2 : feed G A (nextTok G w c.pos) FUEL c.stack with
+          | shifted s => rw [hf2] at h; exact ihg _ _ _ _ h
+          | accept s => rw [hf2] at h; simp only [Prod.mk.injEq] at h; rw [← h.2]; exact Nat.le_refl _
+          | crash => rw [hf2] at h; simp only [Prod.mk.injEq] at h; rw [← h.2]; exact Nat.le_refl _
+          | fuelOut => rw [hf2] at h; simp only [Prod.mk.injEq] at h; rw [← h.2]; exact Nat.le_refl _
+          | error s =>
+            rw [hf2] at h
+            simp only at h
+            cases hr : recover ⟨s, c.pos⟩ with
+            | none => rw [hr] at h; simp only [Prod.mk.injEq] at h; rw [← h.2]; simp
+            | some r =>
+              obtain ⟨c', rs⟩ := r
+              rw [hr] at h
+              simp only at h
+              by_cases he : rs.isEmpty = true
+              · rw [if_pos he] at h; simp only [Prod.mk.injEq] at h; rw [← h.2]; simp
+              · rw [if_neg he] at h
+                have := ihg _ _ _ _ h
+                simp only [List.length_append, List.length_cons, List.length_nil] at this
+                omega
+      cases hr : recover ⟨s, c.pos⟩ with
+      | none => rw [hr] at h; simp only [Prod.mk.injEq] at h; have := congrArg List.length h.2; simp at this
+      | some r =>
+        obtain ⟨c', rs⟩ := r
+        rw [hr] at h
+        simp only at h
+        by_cases he : rs.isEmpty = true
+        · rw [if_pos he] at h; simp only [Prod.mk.injEq] at h; have := congrArg List.length h.2; simp at this
+        · rw [if_neg he] at h
+          have := hlen _ _ _ _ _ h
+          simp only [List.length_append, List.length_cons, List.length_nil] at this
+          omega
 
 end GrmVerif.C07
